@@ -1242,6 +1242,48 @@ func (h *History) FirstRemoval(s *Subscriber) (int64, string) {
 	return best, what
 }
 
+// FirstRemovalJudged is FirstRemoval without the key-level removals (source Done, failed start-up)
+// of a trigger that was certainly gone before s began to subscribe (StaleFor): the source of an
+// earlier trigger with the same key finishing late is not something that may remove s.
+func (h *History) FirstRemovalJudged(s *Subscriber) (int64, string) {
+	best, what := int64(0), ""
+	upd := func(ts int64, w string) {
+		if ts != 0 && (best == 0 || ts < best) {
+			best, what = ts, w
+		}
+	}
+	for _, rm := range s.Removals() {
+		upd(rm.Ts, rm.What)
+	}
+	for _, ts := range s.W.Log().FailTs {
+		upd(ts, "writer-failure")
+	}
+	inv := s.SubInv.Load()
+	for _, kr := range h.KeyRemovals[s.Key] {
+		ret := kr.Ret.Load()
+		if ret != 0 && ret < inv {
+			continue
+		}
+		if h.StaleFor(kr.Creator, s) {
+			continue
+		}
+		upd(kr.Call, kr.What)
+	}
+	upd(h.ShutdownInv, "shutdown")
+	return best, what
+}
+
+// StaleRemovals counts the key-level removals that FirstRemovalJudged does not accept for s.
+func (h *History) StaleRemovals(s *Subscriber) int {
+	n := 0
+	for _, kr := range h.KeyRemovals[s.Key] {
+		if h.StaleFor(kr.Creator, s) {
+			n++
+		}
+	}
+	return n
+}
+
 // StaleFor reports whether a trigger created by creator is certainly gone before s began to
 // subscribe: every subscriber of the key whose subscribe call began before that of s (the creator
 // among them) was completed before s began.
